@@ -104,14 +104,29 @@ pub fn gen_coords(ch: &mut Choices) -> Coordinates {
 }
 
 fn gen_bound(ch: &mut Choices) -> Option<Duration> {
-    match ch.weighted(&[70, 6, 8, 8, 8]) {
+    match ch.weighted(&[66, 6, 8, 8, 8, 4]) {
         0 => None,
         1 => Some(Duration::zero()),
         2 => Some(Duration::seconds(ch.int(1, 86400))),
         3 => Some(Duration::days(ch.int(1, 400))),
-        _ => Some(Duration::days(ch.int(400, 36600))),
+        4 => Some(Duration::days(ch.int(400, 36600))),
+        // any representable bound
+        _ => Some(ch.pick(&[Duration::MAX, Duration::MAX - Duration::days(1), Duration::MAX - Duration::hours(23), Duration::days(100_000_000), Duration::milliseconds(i64::MAX / 2)])),
     }
 }
+
+/// Zones whose clock once jumped by (almost) a whole day, with the UTC instant of the jump: the
+/// longest gaps of the tz database within 1900..2100.
+const GIANT_GAPS: [(chrono_tz::Tz, (i32, u32, u32, u32)); 8] = [
+    (chrono_tz::Pacific::Apia, (2011, 12, 30, 10)),
+    (chrono_tz::Pacific::Fakaofo, (2011, 12, 30, 11)),
+    (chrono_tz::Pacific::Kwajalein, (1993, 8, 21, 12)),
+    (chrono_tz::Pacific::Kiritimati, (1994, 12, 31, 10)),
+    (chrono_tz::Pacific::Kanton, (1994, 12, 31, 11)),
+    (chrono_tz::Antarctica::Casey, (1969, 1, 1, 0)),
+    (chrono_tz::Asia::Anadyr, (1982, 4, 1, 0)),
+    (chrono_tz::America::Metlakatla, (2015, 11, 1, 10)),
+];
 
 /// Evaluate an expression in one context at the given instants.
 fn exercise_ctx<L: Localize>(
@@ -183,8 +198,29 @@ pub fn exercise(
             exercise_ctx(mode, &mut tally, text, &norm, "normal form, no location", &|n| n, &instants[..1], window)?;
         }
         1 => {
-            let tz = chrono_tz::TZ_VARIANTS[ch.draw(chrono_tz::TZ_VARIANTS.len() as u32) as usize];
+            let mut tz = chrono_tz::TZ_VARIANTS[ch.draw(chrono_tz::TZ_VARIANTS.len() as u32) as usize];
             let in_tz = chrono_tz::TZ_VARIANTS[ch.draw(chrono_tz::TZ_VARIANTS.len() as u32) as usize];
+            let mut instants = instants.clone();
+            match ch.weighted(&[55, 20, 25]) {
+                0 => {}
+                // a few hours before one of the day-long gaps of the tz database
+                1 => {
+                    let (z, (y, m, d, h)) = ch.pick(&GIANT_GAPS);
+                    tz = z;
+                    instants[0] = NaiveDate::from_ymd_opt(y, m, d).unwrap().and_hms_opt(h, 0, 0).unwrap() - Duration::minutes(ch.int(0, 1800));
+                    case.label("instant_before_a_day_long_gap");
+                }
+                // around an actual transition of the drawn zone
+                _ => {
+                    let y = 1900 + ch.int(0, 200) as i32;
+                    let a = NaiveDate::from_ymd_opt(y, 1, 1).unwrap().and_hms_opt(0, 0, 0).unwrap();
+                    let ts = crate::props::c09::transitions(tz, a, a + Duration::days(366));
+                    if !ts.is_empty() {
+                        instants[0] = ts[ch.draw(ts.len() as u32) as usize] + Duration::minutes(ch.int(-600, 120));
+                        case.label("instant_near_a_zone_transition");
+                    }
+                }
+            }
             let mut ctx = Context::default().with_holidays(holidays).with_locale(TzLocation::new(tz));
             if let Some(b) = bound {
                 ctx = ctx.approx_bound_interval_size(b);
@@ -366,13 +402,26 @@ pub fn exercise_text(text: &str, case: &mut Case) -> Result<(), String> {
     Ok(())
 }
 
+/// Replay entry: the expression evaluated under the largest representable interval-size bounds.
+fn bound_text(text: &str, case: &mut Case) -> Result<(), String> {
+    case.key = format!("{text} with approx_bound_interval_size(TimeDelta::MAX)");
+    let oh = OpeningHours::parse(text).map_err(|e| e.to_string())?;
+    let mut tally = Tally { calls: 0, too_far: 0 };
+    for bound in [Duration::MAX, Duration::MAX - Duration::hours(23), Duration::MAX - Duration::days(1)] {
+        let oh = oh.clone().with_context(Context::default().approx_bound_interval_size(bound));
+        let t = NaiveDate::from_ymd_opt(2020, 1, 1).unwrap().and_hms_opt(12, 0, 0).unwrap();
+        exercise_ctx(Mode::Light, &mut tally, text, &oh, "bound TimeDelta::MAX", &|n| n, &[t], Duration::days(30))?;
+    }
+    Ok(())
+}
+
 pub fn property() -> Property {
     Property {
         id: "C04",
         subs: vec![
             SubCheck {
                 name: "hostile",
-                rule: "sentence generator with hostile values (day offsets up to i64::MAX, steps up to 65535 / 255, 48:00, event offsets up to 23:59, Feb 29-31 with offsets, years 1900/9999, 300-rule expressions, arbitrary Unicode comments) x context (no location / any of the 596 IANA zones with the instant given in another zone / zone + coordinates incl. poles, antimeridian, -0.0, subnormals / Context::from_coords; interval-size bound none, 0 s .. 100 years) x 2 instants over the whole chrono range (MIN, MAX, +-1 minute, years -262142..262141, both bounds of the supported range): parse, to_string, reparse, normalize, is_constant, schedule_at, state, is_*, next_change, iter_range (first 50), iter_from (first 8) must return without panic; 1 % of the cases run with the full work bound of 6.2 M day schedules per call (exceeding = violation), the others skip calls over 6 000 schedules; non-trivial = the sentence was accepted and evaluated",
+                rule: "sentence generator with hostile values (day offsets up to i64::MAX, steps up to 65535 / 255, 48:00, event offsets up to 23:59, Feb 29-31 with offsets, years 1900/9999, 300-rule expressions, arbitrary Unicode comments) x context (no location / any of the 596 IANA zones with the instant given in another zone / zone + coordinates incl. poles, antimeridian, -0.0, subnormals / Context::from_coords; interval-size bound none, 0 s .. 100 years, up to TimeDelta::MAX; a fifth of the zone contexts probe a few hours before one of the eight day-long gaps of the tz database, a quarter around an actual transition of the drawn zone) x 2 instants over the whole chrono range (MIN, MAX, +-1 minute, years -262142..262141, both bounds of the supported range): parse, to_string, reparse, normalize, is_constant, schedule_at, state, is_*, next_change, iter_range (first 50), iter_from (first 8) must return without panic; 1 % of the cases run with the full work bound of 6.2 M day schedules per call (exceeding = violation), the others skip calls over 6 000 schedules; non-trivial = the sentence was accepted and evaluated",
                 f: hostile,
                 text_f: Some(exercise_text),
                 cases_quick: 12_000,
@@ -387,6 +436,15 @@ pub fn property() -> Property {
                 cases_quick: 12_000,
                 cases_thorough: 500_000,
                 max_choices: 380,
+            },
+            SubCheck {
+                name: "bound_text",
+                rule: "",
+                f: |_, _| Ok(()),
+                text_f: Some(bound_text),
+                cases_quick: 0,
+                cases_thorough: 0,
+                max_choices: 1,
             },
             SubCheck {
                 name: "token_soup",
